@@ -37,3 +37,106 @@ C["kneeliverse.linear_fit.linear_fit_residuals_points"] = dict(
     requires=["len(points) >= 1"],
     ensures=["result == uf('FitResiduals', 'Real', points)"],
 )
+
+
+# ================================================================== C17: geometric primitives, mode R (definitional contracts)
+def crossp(a, b, p):
+    """cross product (b-a) x (p-a)"""
+    return "((%s[0]-%s[0])*(%s[1]-%s[1]) - (%s[1]-%s[1])*(%s[0]-%s[0]))" % (b, a, p, a, b, a, p, a)
+
+
+def d2(p, q):
+    return "(sq(%s[0]-%s[0]) + sq(%s[1]-%s[1]))" % (p, q, p, q)
+
+
+# distance of pt[i] to the infinite line through start,end:  r >= 0 and r^2 * |end-start|^2 == cross^2  (division/root free)
+# L2 and Cr name the squared chord length and the cross product (definitional axioms), which keeps the nonlinear steps small.
+C["kneeliverse.linear_fit.perpendicular_distance_points#def"] = dict(
+    function="kneeliverse.linear_fit.perpendicular_distance_points", mode="R", owner="C17",
+    params={"pt": PTS, "start": COEF, "end": COEF}, returns="Seq[Real]",
+    spec_funs={"L2": ([], "Real", d2("end", "start")), "Cr": (["i"], "Real", crossp("start", "end", "pt[i]"))},
+    requires=["%s > 0" % d2("end", "start")],
+    post_hints=[
+        "L2() > 0 and sqrt(L2()) > 0 and sq(sqrt(L2())) == L2()",
+        "len(result) == len(pt)",
+        "forall(0, len(pt), lambda i: result[i] == absr(Cr(i) / sqrt(L2())))",
+        "forall(0, len(pt), lambda i: sq(result[i]) == sq(Cr(i) / sqrt(L2())))",
+        "forall(0, len(pt), lambda i: (Cr(i) / sqrt(L2())) * sqrt(L2()) == Cr(i))",
+        "forall(0, len(pt), lambda i: sq(result[i]) * L2() == sq(Cr(i)))",
+    ],
+    ensures=[
+        "len(result) == len(pt)",
+        "forall(0, len(pt), lambda i: result[i] >= 0)",
+        "forall(0, len(pt), lambda i: sq(result[i]) * %s == sq(%s))" % (d2("end", "start"), crossp("start", "end", "pt[i]")),
+    ],
+)
+
+# the sub-range variant returns the distances of exactly points[left..right] to the line through points[left], points[right]
+C["kneeliverse.linear_fit.perpendicular_distance_index#def"] = dict(
+    function="kneeliverse.linear_fit.perpendicular_distance_index", mode="R", owner="C17",
+    use={"kneeliverse.linear_fit.perpendicular_distance_points": "kneeliverse.linear_fit.perpendicular_distance_points#def"},
+    params={"points": PTS, "left": "Int", "right": "Int"}, returns="Seq[Real]",
+    requires=["0 <= left and left < right and right < len(points)", "%s > 0" % d2("points[right]", "points[left]")],
+    ensures=[
+        "len(result) == right - left + 1",
+        "forall(0, right - left + 1, lambda i: result[i] >= 0)",
+        "forall(0, right - left + 1, lambda i: sq(result[i]) * %s == sq(%s))" % (
+            d2("points[right]", "points[left]"), crossp("points[left]", "points[right]", "points[left + i]")),
+    ],
+)
+
+
+# ------------------------------------------------------------------ shortest distance = distance to the closed segment a-b
+# W(i) = (p_i-a).(b-a), Cr(i) = (p_i-a) x (b-a), L2 = |b-a|^2.  Closest point of the segment: a if W <= 0, b if W >= L2, else the
+# foot of the perpendicular; hence (division- and root-free)  r >= 0 and
+#   r^2 * L2 == |p_i-a|^2 * L2   (W <= 0),   |p_i-b|^2 * L2   (W >= L2),   Cr^2   (otherwise);   a == b:  r^2 == |p_i-a|^2.
+_W = "((p[i][0]-a[0])*(b[0]-a[0]) + (p[i][1]-a[1])*(b[1]-a[1]))"
+_CR = "((p[i][0]-a[0])*(b[1]-a[1]) - (p[i][1]-a[1])*(b[0]-a[0]))"
+_PA2 = "(sq(p[i][0]-a[0]) + sq(p[i][1]-a[1]))"
+_PB2 = "(sq(p[i][0]-b[0]) + sq(p[i][1]-b[1]))"
+C["kneeliverse.linear_fit.shortest_distance_points#def"] = dict(
+    function="kneeliverse.linear_fit.shortest_distance_points", mode="R", owner="C17",
+    params={"p": PTS, "a": COEF, "b": COEF}, returns="Seq[Real]",
+    spec_funs={"L2": ([], "Real", d2("b", "a")), "W": (["i"], "Real", _W), "Cr": (["i"], "Real", _CR),
+               "PA2": (["i"], "Real", _PA2), "PB2": (["i"], "Real", _PB2)},
+    requires=[],
+    post_hints={1: [
+        "L2() > 0 and sqrt(L2()) > 0 and sq(sqrt(L2())) == L2()",
+        "d[0] * sqrt(L2()) == b[0] - a[0] and d[1] * sqrt(L2()) == b[1] - a[1]",
+        "forall(0, len(p), lambda i: s[i] == (a[0]-p[i][0])*d[0] + (a[1]-p[i][1])*d[1])",
+        "forall(0, len(p), lambda i: t[i] == (p[i][0]-b[0])*d[0] + (p[i][1]-b[1])*d[1])",
+        "forall(0, len(p), lambda i: c[i] == (p[i][0]-a[0])*d[1] - (p[i][1]-a[1])*d[0])",
+        "forall(0, len(p), lambda i: s[i] * sqrt(L2()) == -W(i))",
+        "forall(0, len(p), lambda i: t[i] * sqrt(L2()) == (p[i][0]-b[0])*(d[0]*sqrt(L2())) + (p[i][1]-b[1])*(d[1]*sqrt(L2())))",
+        "forall(0, len(p), lambda i: t[i] * sqrt(L2()) == (p[i][0]-b[0])*(b[0]-a[0]) + (p[i][1]-b[1])*(b[1]-a[1]))",
+        "forall(0, len(p), lambda i: t[i] * sqrt(L2()) == W(i) - L2())",
+        "forall(0, len(p), lambda i: c[i] * sqrt(L2()) == Cr(i))",
+        "forall(0, len(p), lambda i: implies(W(i) <= 0, s[i] >= 0 and t[i] < 0))",
+        "forall(0, len(p), lambda i: implies(W(i) >= L2(), t[i] >= 0 and s[i] < 0))",
+        "forall(0, len(p), lambda i: implies(W(i) > 0 and W(i) < L2(), t[i] < 0 and s[i] < 0))",
+        "forall(0, len(p), lambda i: h[i] == ite(W(i) <= 0, s[i], ite(W(i) >= L2(), t[i], 0.0)))",
+        "forall(0, len(p), lambda i: result[i] >= 0 and sq(result[i]) == sq(h[i]) + sq(c[i]))",
+        "forall(0, len(p), lambda i: sq(result[i]) * sq(sqrt(L2())) == sq(h[i]) * sq(sqrt(L2())) + sq(c[i]) * sq(sqrt(L2())))",
+        "forall(0, len(p), lambda i: sq(h[i] * sqrt(L2())) == sq(h[i]) * sq(sqrt(L2())) and sq(c[i] * sqrt(L2())) == sq(c[i]) * sq(sqrt(L2())))",
+        "forall(0, len(p), lambda i: sq(result[i]) * sq(sqrt(L2())) == sq(h[i] * sqrt(L2())) + sq(c[i] * sqrt(L2())))",
+        "forall(0, len(p), lambda i: sq(result[i]) * L2() == sq(result[i]) * sq(sqrt(L2())))",
+        "forall(0, len(p), lambda i: sq(result[i]) * L2() == sq(h[i] * sqrt(L2())) + sq(c[i] * sqrt(L2())))",
+        "forall(0, len(p), lambda i: implies(W(i) <= 0, h[i] * sqrt(L2()) == -W(i)))",
+        "forall(0, len(p), lambda i: implies(W(i) >= L2(), h[i] * sqrt(L2()) == W(i) - L2()))",
+        "forall(0, len(p), lambda i: implies(W(i) > 0 and W(i) < L2(), h[i] * sqrt(L2()) == 0))",
+        "forall(0, len(p), lambda i: implies(W(i) <= 0, sq(result[i]) * L2() == sq(W(i)) + sq(Cr(i))))",
+        "forall(0, len(p), lambda i: implies(W(i) >= L2(), sq(h[i] * sqrt(L2())) == sq(W(i) - L2()) and sq(c[i] * sqrt(L2())) == sq(Cr(i))))",
+        "forall(0, len(p), lambda i: implies(W(i) >= L2(), sq(result[i]) * L2() == sq(W(i) - L2()) + sq(Cr(i))))",
+        "forall(0, len(p), lambda i: implies(W(i) > 0 and W(i) < L2(), sq(result[i]) * L2() == sq(Cr(i))))",
+        "forall(0, len(p), lambda i: sq(W(i)) + sq(Cr(i)) == PA2(i) * L2())",
+        "forall(0, len(p), lambda i: sq(W(i) - L2()) + sq(Cr(i)) == PB2(i) * L2())",
+        "forall(0, len(p), lambda i: sq(result[i]) * L2() == ite(W(i) <= 0, PA2(i) * L2(), ite(W(i) >= L2(), PB2(i) * L2(), sq(Cr(i)))))",
+    ]},
+    ensures=[
+        "len(result) == len(p)",
+        "forall(0, len(p), lambda i: result[i] >= 0)",
+        "implies(a[0] == b[0] and a[1] == b[1], forall(0, len(p), lambda i: sq(result[i]) == %s))" % _PA2,
+        "implies(not (a[0] == b[0] and a[1] == b[1]), forall(0, len(p), lambda i: sq(result[i]) * %s == "
+        "ite(%s <= 0, %s * %s, ite(%s >= %s, %s * %s, sq(%s)))))" % (d2("b", "a"), _W, _PA2, d2("b", "a"), _W, d2("b", "a"), _PB2, d2("b", "a"), _CR),
+    ],
+)
